@@ -161,7 +161,7 @@ def generate(rng):
             ops.append({"op": "touch_col", "b": b, "c": c, "col": some_col(b, c)})
         elif r < 0.78:
             ops.append({"op": "protocol", "level": rng.choice(["file", "block", "cat"]), "b": some_block(), "c": rng.choice(CATS),
-                        "what": rng.choice(["len", "iter", "contains", "keys", "items", "get_default", "values"]),
+                        "what": rng.choice(["len", "iter", "contains", "keys", "items", "get_default", "values", "block_property"]),
                         "key": rng.choice(BLOCKS + CATS + COLS)})
         elif r < 0.90:
             ops.append({"op": "restart", "how": rng.choice(["memory", "memory", "stream", "path", "tempfile", "wrapper", "subtree_block", "subtree_cat", "str"]),
@@ -610,6 +610,15 @@ class Sim:
         elif what == "values":
             st, v = call(lambda: len(list(obj.values())))
             exp = len(m)
+        elif what == "block_property":
+            if level != "file":
+                return "skipped"
+            st, v = call(lambda: list(obj.block.keys()))
+            if len(m) != 1:
+                if st == "ok" or not isinstance(v, ValueError):
+                    self.fail("mapping:block-property-with-several-blocks", got="ok" if st == "ok" else exc_name(v), blocks=len(m))
+                return "ValueError"
+            exp = list(next(iter(m.values())).keys())
         else:  # get_default
             st, v = call(lambda: obj.get(key, "DEFAULT") if key not in m else "present")
             exp = "DEFAULT" if key not in m else "present"
@@ -626,6 +635,10 @@ class Sim:
         S = self.S
         self.res.stats["probe:rejected-op"] += 1
         self.res.stats["fault:wrong-level-assign"] += 1
+        # a column whose mask has another length than its data is refused at construction (documented IndexError)
+        st, val = call(S.Column, np.array(["a", "b", "c"]), np.array([0, 1], dtype=np.uint8))
+        if st == "ok" or not isinstance(val, IndexError):
+            self.fail("mapping:mask-length-mismatch-accepted", got="ok" if st == "ok" else exc_name(val))
         if op["level"] == "file":
             st, val = call(self.file.__setitem__, op["b"], S.Category({"id": ["1"]}))
             if st == "ok" or not isinstance(val, TypeError):
